@@ -68,7 +68,10 @@ class DiagonalGaussian(_ProbabilisticModel):
         c = np.reshape(self.covariance, (-1, D))
         pc = _compute_precision_cholesky(c, 'diag')
         self.precision_cholesky = np.reshape(pc, self.covariance.shape)
-        self.log_det_precision_cholesky = _compute_log_det_cholesky(pc, 'diag', D)
+        self.log_det_precision_cholesky = np.reshape(
+            _compute_log_det_cholesky(pc, 'diag', D),
+            self.covariance.shape[:-1]
+        )
 
     def log_pdf(self, y):
         """Gets used by e.g. the GMM.
@@ -105,7 +108,10 @@ class SphericalGaussian(_ProbabilisticModel):
         c = np.reshape(self.covariance, (-1,))
         pc = _compute_precision_cholesky(c, 'diag')
         self.precision_cholesky = np.reshape(pc, self.covariance.shape)
-        self.log_det_precision_cholesky = _compute_log_det_cholesky(pc, 'spherical', D)
+        self.log_det_precision_cholesky = np.reshape(
+            _compute_log_det_cholesky(pc, 'spherical', D),
+            self.covariance.shape
+        )
 
     def log_pdf(self, y):
         """Gets used by e.g. the GMM.
